@@ -31,6 +31,10 @@ def runs(tier):
     # sweeps on objects whose cores are views with unusual memory layouts (results of rank_transpose / transpose)
     out.append(dict(name='gview', constants=dict(base, MaxD=3, RanksS={2, 3}, Scenarios={'single'}, MaxDepth=2, Lean=True,
                                                  OpsAt=[{'RankTranspose', 'Transpose'}, OPS], KindPairs={('real', 'real')})))
+    # stale-state histories: a sweep, an overwriting call that destroys the gauge, the same sweep again
+    out.append(dict(name='stale3', constants=dict(base, MaxD=3, DimsR={2}, DimsC={1, 2}, RanksS={2}, Scenarios={'single'}, MaxDepth=3,
+                                                  OWs={True}, Lean=True,
+                                                  OpsAt=[OPS, {'RankTranspose', 'Transpose', 'Conj'}, OPS], KindPairs={('real', 'real')})))
     # beyond toy sizes: orders 4 and 5, mode size 4, rank 4 (one shape per order)
     out.append(dict(name='gbig', nshards=4, constants=dict(base, MaxD=5, DimsR={4}, DimsC={1}, RanksS={4}, Scenarios={'single'}, Ops=OPS,
                                                            Lean=True, KindPairs={('real', 'real'), ('complex', 'complex')})))
